@@ -114,7 +114,8 @@ impl SocksListener {
                 }
                 Err(e) => {
                     error!("{}, Accept error: {}: cause: {:?}", self.name, e, e.cause);
-                    return;
+                    // e.g. out of file descriptors: the listener must survive, try again shortly
+                    tokio::time::sleep(std::time::Duration::from_millis(100)).await;
                 }
             }
         }
